@@ -194,3 +194,12 @@ pub fn chars_to_string(v: Vec<char>) -> (r: String)
 {
     v.into_iter().collect()
 }
+
+// string equality compares the text (`&String == &str` goes through the blanket reference impl, to which no
+// postcondition can be attached from outside vstd: expression hole)
+#[verifier::external_body]
+pub fn str_eq(a: &String, b: &str) -> (r: bool)
+    ensures r == (a@ == b@),
+{
+    a == b
+}
